@@ -36,7 +36,7 @@ TSign == expect = "operand" /\ (\E c \in {"+", "-"} : Add(c)) /\ UNCHANGED <<dep
 TLPar == expect = "operand" /\ Add("(") /\ depth' = depth + 1 /\ UNCHANGED expect
 TRPar == expect = "operator" /\ depth > 0 /\ Add(")") /\ depth' = depth - 1 /\ UNCHANGED expect
 TOp   == expect = "operator" /\ (\E o \in Bin : Add(o)) /\ expect' = "operand" /\ UNCHANGED depth
-Char  == Len(s) < MaxLen /\ (\E c \in Alphabet : s' = s \o c) /\ UNCHANGED <<ntok, depth, expect>>
+Char  == Len(s) < MaxLen /\ (\E c \in Alphabet : s' = s \o Ch(c)) /\ UNCHANGED <<ntok, depth, expect>>
 
 Next == IF Mode = "tokens" THEN TNum \/ TSign \/ TLPar \/ TRPar \/ TOp ELSE Char
 Spec == Init /\ [][Next]_vars
